@@ -254,10 +254,23 @@ def peer_recv(seed, idx, fam="peer_recv"):
     st += [peer("fill", len=plen, count=4), sleep(100000)]
     if reader in ("slow", "stopped"):
         st.append({"op": "read", "ep": "a"})
-    st += [sleep(100000), peer("fin"), sleep(300000), peer("ack"), sleep(2 * SEC), {"op": "drop", "ep": "a"}, sleep(14 * SEC)]
+    # the end: the peer's FIN in order, or overtaking its last data (which then arrives late), each
+    # with the local side still open or already half-closed (FIN sent, waiting for the peer's)
+    end = rng.choice(["fin", "fin", "ooo_fin", "shut_fin", "shut_ooo_fin", "shut_ooo_fin"])
+    st.append(sleep(100000))
+    if end.startswith("shut"):
+        st += [{"op": "shutdown", "ep": "a"}, sleep(lat + 10)]
+        if rng.random() < 0.6:
+            st += [peer("ack"), sleep(lat + 10)]
+    if end.endswith("ooo_fin"):
+        k = rng.choice([1, 1, 2])
+        st += [peer("fin", ahead=k), sleep(rng.choice([lat + 10, 50000, 700000]))]
+        if rng.random() < 0.8:
+            st += [peer("data", len=plen) for _ in range(k)] + [sleep(lat + 10)]
+    st += [peer("fin"), sleep(300000), peer("ack"), sleep(2 * SEC), {"op": "drop", "ep": "a"}, sleep(14 * SEC)]
     return peer_script(f"{fam}/{idx}", seed * 37 + idx, st, opts=opts, lat=lat,
                        rand=[rng.randrange(65536), rng.choice([1, 65534, rng.randrange(65536)]), rng.randrange(65536)],
-                       info={"mss": mss, "rx": rx, "reader": reader, "plen": plen})
+                       info={"mss": mss, "rx": rx, "reader": reader, "plen": plen, "end": end})
 
 # ------------------------------------------------------------------ dedicated known-finding scenarios
 def kf_d4(seed=1):
@@ -338,7 +351,14 @@ def close_script(seed, idx, fam="close"):
     gen = isn_pair(rng)
     # faults around the closing packets
     fault = rng.choice(["none", "none", "drop_fin1", "drop_fin2", "drop_finack", "drop_all_fins", "cut_mid", "cut_after_flush",
-                        "peer_vanishes", "dup_fin", "reorder_fin", "cancel_a", "cancel_b"])
+                        "peer_vanishes", "dup_fin", "reorder_fin", "cancel_a", "cancel_b", "reply_tail_lost", "reply_tail_lost"])
+    reply = 0
+    if fault == "reply_tail_lost":
+        # "write the request, shut down, read the reply to end-of-stream" with the reply's tail lost once:
+        # B's FIN (the answer to A's) overtakes B's last data
+        reply = rng.choice([1, 400, 3000, 3000, 9000])
+        for j in rng.sample(range(0, 1 + reply // LINKS[link] + 1), rng.choice([1, 1, 2])):
+            st.append(rule(**{"from": "B", "type": "data", "seq_idx": j, "nth": 1, "act": "drop"}))
     if fault == "drop_fin1":
         st.append(rule(**{"type": "fin", "nth": 1, "act": "drop", "times": 1}))
     elif fault == "drop_fin2":
@@ -357,10 +377,14 @@ def close_script(seed, idx, fam="close"):
     st.append({"op": "read", "ep": "a"})
     if n:
         st.append({"op": "write", "ep": "a", "n": n})
-    if rng.random() < 0.3:
+    if reply:
+        st.append({"op": "write", "ep": "b", "n": reply})
+    elif rng.random() < 0.3:
         st.append({"op": "write", "ep": "b", "n": rng.choice([1, 3000])})
     closer = rng.choice(["shutdown_a", "shutdown_a", "flush_then_shutdown", "drop_a", "drop_w_a", "drop_b", "both_drop", "shutdown_both"])
     when = rng.choice([0, 0, lat, 5 * lat, 500000])
+    if reply:
+        closer, when = rng.choice(["shutdown_a", "shutdown_a", "drop_w_a"]), rng.choice([0, 0, lat // 2])
     if when:
         st.append(sleep(when))
     if fault == "cut_mid":
@@ -395,6 +419,7 @@ def close_script(seed, idx, fam="close"):
     st += [{"op": "wait", "timeout_us": 45 * SEC},
            {"op": "write", "ep": "a", "n": 10},      # later calls must fail cleanly, not hang
            {"op": "flush", "ep": "a"},
+           {"op": "flush", "ep": "b"},
            {"op": "read", "ep": "b", "n": 1},
            {"op": "wait", "timeout_us": 15 * SEC},
            {"op": "drop", "ep": "a"}, {"op": "drop", "ep": "b"}, sleep(25 * SEC)]
@@ -646,3 +671,51 @@ def mtu_script(seed, idx, fam="mtu"):
     return script(f"{fam}/{idx}", seed * 59 + idx, socks, st, net=net,
                   info={"family": fam, "class": "fair-lossy", "kind": kind, "path_payload": (path - 20) if kind != "none" else 0,
                         "links": [link_a, link_b], "n": n, "v6": v6})
+
+# ------------------------------------------------------------------ probe x loss x SACK x timeout interactions
+def probe_loss(seed, idx, fam="probe_loss"):
+    """The library sends data including MTU probes; the network loses chosen segments around the probe, the
+    scripted peer reports exactly what it holds (cumulative + selective ACKs), stays silent across timeouts, and
+    finally acknowledges everything."""
+    rng = random.Random(seed * 1000003 + idx * 37 + 23)
+    link = rng.choice([1500, 1500, 1000, 9000])
+    lat = rng.choice([500, 1000])
+    retx = rng.choice([0, 0, 1, 1, 2])
+    opts = dict(link_mtu=link, probe_retx=retx, nagle=rng.random() < 0.5, max_retx=rng.choice([3, 5]))
+    st = peer_open_active(lat, peer_isn=rng.choice([1000, 65530]), wnd=rng.choice([1 << 20, 1 << 20, 4000]))
+    st.append({"op": "read", "ep": "a"})
+    # the first probe is the second segment (528, then 528 + (ceiling-528)/2 + 1)
+    ceiling = link - 48
+    probe = 528 + (ceiling - 528) // 2 + 1
+    total = rng.choice([528 + probe, 528 + probe, 528 + probe + 1, 528 + probe + 700, 3 * 528 + probe, 10000])
+    lose = rng.choice([[0], [0], [1], [0, 1], [2], [0, 2], []])
+    for j in lose:
+        for n in range(1, rng.choice([2, 2, 3])):
+            st.append(rule(**{"from": "A", "type": "data", "seq_idx": j, "nth": n, "act": "drop"}))
+    paced = rng.random() < 0.5
+    if paced:
+        # short paced writes: the queue often ends with a probe while earlier segments are unacknowledged
+        for j in sorted(rng.sample(range(0, 24), rng.choice([2, 4, 6]))):
+            st.append(rule(**{"from": "A", "type": "data", "seq_idx": j, "nth": 1, "act": "drop"}))
+        for _ in range(rng.choice([6, 12, 20])):
+            st.append({"op": "write", "ep": "a", "n": rng.choice([300, 528, 600, 972, 1000, 1500, 2000])})
+            st.append(sleep(rng.choice([lat + 10, 5000, 30000, 120000, 250000])))
+            if rng.random() < 0.7:
+                st.append(peer("ack", n=1))
+    else:
+        st.append({"op": "write", "ep": "a", "n": total, "chunk": rng.choice([total, 528, 100])})
+    # few reports (no fast retransmit: the timeout has to repair the loss) or many
+    for _ in range(rng.choice([1, 1, 1, 2, 4, 8])):
+        st += [sleep(rng.choice([lat + 10, lat + 10, 5000, 50000])), peer("ack", n=rng.choice([1, 1, 1, 3]))]
+    st += [sleep(rng.choice([250000, 450000, 900000, 2 * SEC]))]
+    for _ in range(rng.choice([1, 3])):
+        st += [peer("ack"), sleep(rng.choice([lat + 10, 300000, 700000]))]
+    if rng.random() < 0.5:
+        st.append({"op": "write", "ep": "a", "n": rng.choice([1, 600, 4000])})
+    for _ in range(14):
+        st += [sleep(rng.choice([lat + 10, 250000])), peer("ack", wnd=1 << 20)]
+    st += [{"op": "flush", "ep": "a"}, {"op": "wait", "ep": "a", "what": "flush", "timeout_us": 20 * SEC},
+           {"op": "drop", "ep": "a"}, sleep(lat + 10), peer("ack"), peer("fin"), sleep(lat + 10), peer("ack"), sleep(15 * SEC)]
+    return peer_script(f"{fam}/{idx}", seed * 61 + idx, st, opts=opts, lat=lat,
+                       rand=[rng.randrange(65536), rng.choice([1, 65534, rng.randrange(65536)])],
+                       info={"link": link, "probe_retx": retx, "lose": lose, "total": total})
